@@ -113,14 +113,15 @@ Proof.
 Qed.
 
 (* ---------- stages of the callback that are not plain sub-steps ---------- *)
-Lemma cb_power_facts k d im ae t :
-  let d' := cb_power k d im ae t in
+(* (statements avoid `let`: the kernel is slow converting let-expanded copies of large terms) *)
+Lemma cb_power_facts k d im ae t d' :
+  d' = cb_power k d im ae t ->
   outs d' = outs d /\ up_on d' = up_on d /\ down_on d' = down_on d /\ up_time d' = up_time d /\ down_time d' = down_time d /\
   last_comm d' = last_comm d /\ pos d' = pos d /\ tilt d' = tilt d /\ start_time d' = start_time d /\ now d' = now d /\
   last_time d' = (if (up_on d || down_on d) && ae && negb (detected d || im) && (u32 (t - start_time d) <? POWER_DETECT_US)
                   then t else last_time d).
 Proof.
-  cbv zeta. unfold cb_power.
+  intros ->. unfold cb_power.
   destruct (up_on d || down_on d); cbn [andb]; [|fld; repeat split; reflexivity].
   destruct ae; cbn [andb]; [|repeat split; reflexivity].
   destruct (detected d); cbn [orb negb andb]; [fld; repeat split; reflexivity|].
@@ -130,12 +131,11 @@ Qed.
 
 Definition end_of (up : bool) : Z := if up then 100 else 10100.
 
-Lemma calibrate_d_facts k d full time up :
-  wfk k -> NT k up d ->
-  let d' := calibrate_d o k d full time (end_of up) in
+Lemma calibrate_d_facts k d full time up d' :
+  wfk k -> NT k up d -> d' = calibrate_d o k d full time (end_of up) ->
   same_frame d d' /\ NT k up d' /\ stop_time d' = stop_time d.
 Proof.
-  intros W N. cbv zeta. unfold calibrate_d.
+  intros W N ->. unfold calibrate_d.
   destruct (negb (known (pos d)) && (0 <? full)) eqn:E.
   2:{ split; [unfold same_frame; repeat split; reflexivity|]. split; [exact N|reflexivity]. }
   apply andb_true_iff in E. destruct E as [E _]. apply negb_true_iff in E.
@@ -153,25 +153,32 @@ Qed.
 Lemma wf_cfg_of k d : wfk k -> wf_cfg (cfg_of k d).
 Proof. intros W. exact W. Qed.
 
-Lemma move_position_d_facts k d full up im :
+Lemma same_frame_only up d d' : same_frame d d' -> only up d -> only up d'.
+Proof.
+  intros (_ & Hu & Hd & _) [P Q]. unfold only, powered in *. destruct up; cbn [negb] in *; rewrite Hu, Hd; auto.
+Qed.
+Lemma same_frame_ext d d' : same_frame d d' -> ext d d'.
+Proof. intros (Ho & _). exists []. rewrite Ho. reflexivity. Qed.
+
+Lemma move_position_d_facts k d full up im d' :
   wfk k -> NT k up d -> only up d -> 0 <= carry up d < 4294967296 ->
-  let d' := move_position_d o k d full up im in
+  d' = move_position_d o k d full up im ->
   ext d d' /\ (nofall up (outs d') -> only up d' /\ NT k up d' /\ start_time d' = start_time d) /\
   up_time d' = up_time d /\ down_time d' = down_time d /\
   last_time d' = last_time d /\ last_comm d' = last_comm d /\ now d' = now d.
 Proof.
-  intros W N O Hc. cbv zeta. unfold move_position_d.
-  set (time := if up then up_time d else down_time d).
-  set (m := move_position o (cfg_of k d) (pos d) (tilt d) time full up).
-  assert (M : m_pos m = pos d /\ (tilt_sup k = true -> m_tilt m = tilt d) /\ m_time m = time /\ (known (pos d) = false -> m_off m = false /\ m_tilt m = tilt d)).
+  intros W N O Hc E'. unfold move_position_d in E'.
+  set (time := if up then up_time d else down_time d) in *.
+  set (m := move_position o (cfg_of k d) (pos d) (tilt d) time full up) in *.
+  assert (M : m_pos m = pos d /\ (tilt_sup k = true -> m_tilt m = tilt d) /\ m_time m = time /\ (known (pos d) = false -> m_tilt m = tilt d)).
   { destruct N as [N|(K & R & T)].
     - unfold m, move_position. rewrite N. cbn [negb orb m_pos m_tilt m_time m_off]. repeat split; auto.
     - pose proof (move_position_at_end (cfg_of k d) (pos d) (tilt d) time full up (wf_cfg_of k d W) K R T Hc) as (A & B & C).
-      fold m in A, B, C. repeat split; auto; intros; congruence. }
-  destruct M as (Mp & Mt & Mtime & Munk).
-  set (d1 := upd_pt d (m_pos m) (m_tilt m)).
+      repeat split; auto; intros; congruence. }
+  destruct M as (Mp & Mt & Mtime & Munk). clearbody m.
+  set (d1 := upd_pt d (m_pos m) (m_tilt m)) in *.
   set (d2 := if up then upd_times d1 (m_time m) (down_time d1) (last_time d1) (last_comm d1)
-             else upd_times d1 (up_time d1) (m_time m) (last_time d1) (last_comm d1)).
+             else upd_times d1 (up_time d1) (m_time m) (last_time d1) (last_comm d1)) in *.
   assert (F2 : same_frame d d2).
   { unfold same_frame, d2, d1, time in *. destruct up; fld; rewrite Mtime; repeat split; reflexivity. }
   assert (N2 : NT k up d2).
@@ -179,23 +186,24 @@ Proof.
     assert (tilt_sup k = true -> tilt d2 = tilt d) by (intros S; unfold d2, d1; destruct up; fld; exact (Mt S)).
     rewrite H. destruct N as [N|(K & R & T)]; [left; exact N|right].
     split; [exact K|]. split; [exact R|]. intros S. rewrite (H0 S). exact (T S). }
-  assert (O2 : only up d2).
-  { destruct F2 as (_ & Hu & Hd & _). destruct O as [P Q]. unfold only, powered in *. destruct up; cbn [negb] in *; rewrite Hu, Hd; auto. }
+  pose proof (same_frame_only up d d2 F2 O) as O2.
   destruct F2 as (Fo & Fu & Fd & F1 & F2' & F3 & F4 & F5 & F6 & F7).
+  clearbody d2. clear d1.
   destruct (m_off m).
-  - set (d3 := if autocal_done d2 && im then fl_set d2 FLAG_CALIBRATION_LOST else d2).
+  - set (d3 := if autocal_done d2 && im then fl_set d2 FLAG_CALIBRATION_LOST else d2) in *.
     assert (S3 : sub up d2 d3) by (unfold d3; subt).
-    pose proof (sub_set_relay up k d3 RELAY_OFF false false) as S4.
+    clearbody d3.
+    pose proof (sub_set_relay up k d3 RELAY_OFF false false) as S4. rewrite <- E' in S4.
     pose proof (sub_trans up _ _ _ S3 S4) as S.
     split; [destruct (sub_log up _ _ S) as [n L]; exists n; rewrite L, Fo; reflexivity|].
     split.
     { intros NF. exfalso.
       assert (P3 : powered up d3 = true).
       { destruct (sub_on up _ _ S3 (ext_nofall up _ _ (sub_ext up _ _ S4) NF) O2) as [P _]. exact P. }
-      exact (set_relay_off_falls up k d3 false P3 NF). }
+      rewrite E' in NF. exact (set_relay_off_falls up k d3 false P3 NF). }
     rewrite (sub_ut up _ _ S), (sub_dt up _ _ S), (sub_lt up _ _ S), (sub_lc up _ _ S), (sub_now up _ _ S).
     repeat split; congruence.
-  - split; [exists []; rewrite Fo; reflexivity|]. split; [intros _; repeat split; auto; try apply O2; congruence|].
+  - subst d'. split; [exists []; rewrite Fo; reflexivity|]. split; [intros _; repeat split; auto; try apply O2; congruence|].
     repeat split; congruence.
 Qed.
 
@@ -210,22 +218,14 @@ Definition rb_report (k : kcfg) (d : dev) : dev :=
     upd_rep d f2 (pos d) (tilt d) f1
             (mk 1 [] [s8_byte (cur_pos d); b1; 0; f2 mod 256; f2 / 256; 0; 0; 0] :: outs d)
   else d.
-Lemma report_block_eq k d t :
-  report_block k d t =
-  if REPORT_PERIOD_US <=? u32 (t - last_comm d) then
-    let d1 := rb_report k d in
-    let d2 := if (TEN_MINUTES_US <? up_time d1) || (TEN_MINUTES_US <? down_time d1) then set_relay k d1 RELAY_OFF false false else d1 in
-    upd_times d2 (up_time d2) (down_time d2) (last_time d2) t
-  else d.
-Proof. reflexivity. Qed.
 
-Lemma rb_report_facts up k d :
-  let d1 := rb_report k d in
+Lemma rb_report_facts up k d d1 :
+  d1 = rb_report k d ->
   (exists n, outs d1 = n ++ outs d /\ nofall up n) /\
   up_on d1 = up_on d /\ down_on d1 = down_on d /\ up_time d1 = up_time d /\ down_time d1 = down_time d /\
   last_time d1 = last_time d /\ last_comm d1 = last_comm d /\ now d1 = now d /\ pos d1 = pos d /\ tilt d1 = tilt d /\ start_time d1 = start_time d.
 Proof.
-  cbv zeta. unfold rb_report.
+  intros ->. unfold rb_report.
   destruct (negb (C10.Model.last_pos d =? pos d) || negb (C10.Model.last_flags d =? flags d) || negb (C10.Model.last_tilt d =? tilt d)).
   - cbv zeta. cbn [outs up_on down_on C10.Model.up_time C10.Model.down_time C10.Model.last_time C10.Model.last_comm C10.Model.now C10.Model.pos C10.Model.tilt start_time upd_rep].
     split; [|repeat split; reflexivity].
@@ -233,36 +233,48 @@ Proof.
   - split; [exists []; split; [reflexivity|apply nofall_nil]|repeat split; reflexivity].
 Qed.
 
-Lemma report_block_facts up k d t :
-  only up d ->
-  let d' := report_block k d t in
-  let due := REPORT_PERIOD_US <=? u32 (t - last_comm d) in
-  ext d d' /\ up_time d' = up_time d /\ down_time d' = down_time d /\ last_time d' = last_time d /\ now d' = now d /\
-  last_comm d' = (if due then t else last_comm d) /\
-  (nofall up (outs d') -> only up d' /\ pos d' = pos d /\ tilt d' = tilt d /\ start_time d' = start_time d /\
-                          ~ (due = true /\ (TEN_MINUTES_US < up_time d \/ TEN_MINUTES_US < down_time d))).
+Lemma rb_not_due k d t : (REPORT_PERIOD_US <=? u32 (t - last_comm d)) = false -> report_block k d t = d.
+Proof. intros H. unfold report_block. rewrite H. reflexivity. Qed.
+Lemma rb_due k d t :
+  (REPORT_PERIOD_US <=? u32 (t - last_comm d)) = true ->
+  report_block k d t =
+  (if (TEN_MINUTES_US <? up_time (rb_report k d)) || (TEN_MINUTES_US <? down_time (rb_report k d))
+   then upd_times (set_relay k (rb_report k d) RELAY_OFF false false)
+                  (up_time (set_relay k (rb_report k d) RELAY_OFF false false)) (down_time (set_relay k (rb_report k d) RELAY_OFF false false))
+                  (last_time (set_relay k (rb_report k d) RELAY_OFF false false)) t
+   else upd_times (rb_report k d) (up_time (rb_report k d)) (down_time (rb_report k d)) (last_time (rb_report k d)) t).
 Proof.
-  intros O. cbv zeta. rewrite report_block_eq.
+  intros H. unfold report_block. rewrite H. fold (rb_report k d).
+  destruct ((TEN_MINUTES_US <? up_time (rb_report k d)) || (TEN_MINUTES_US <? down_time (rb_report k d))); reflexivity.
+Qed.
+
+Lemma report_block_facts up k d t d' :
+  only up d -> d' = report_block k d t ->
+  ext d d' /\ up_time d' = up_time d /\ down_time d' = down_time d /\ last_time d' = last_time d /\ now d' = now d /\
+  last_comm d' = (if REPORT_PERIOD_US <=? u32 (t - last_comm d) then t else last_comm d) /\
+  (nofall up (outs d') -> only up d' /\ pos d' = pos d /\ tilt d' = tilt d /\ start_time d' = start_time d /\
+                          ~ ((REPORT_PERIOD_US <=? u32 (t - last_comm d)) = true /\ (TEN_MINUTES_US < up_time d \/ TEN_MINUTES_US < down_time d))).
+Proof.
+  intros O E'.
   destruct (REPORT_PERIOD_US <=? u32 (t - last_comm d)) eqn:Edue.
-  2:{ split; [apply ext_refl|]. repeat split; auto; try apply O. intros [X _]; discriminate. }
-  cbv zeta.
-  pose proof (rb_report_facts up k d) as F. cbv zeta in F.
+  2:{ rewrite (rb_not_due k d t Edue) in E'. subst d'. split; [apply ext_refl|]. repeat split; auto; try apply O. intros [X _]; discriminate. }
+  rewrite (rb_due k d t Edue) in E'.
+  pose proof (rb_report_facts up k d (rb_report k d) eq_refl) as F.
   set (d1 := rb_report k d) in *. clearbody d1.
   destruct F as ([n1 [L1 NF1]] & Fu & Fd & F1 & F2 & F3 & F4 & F5 & F6 & F7 & F8).
   assert (O1 : only up d1) by (destruct O as [P Q]; unfold only, powered in *; destruct up; cbn [negb] in *; rewrite Fu, Fd; auto).
-  rewrite F1, F2.
+  rewrite F1, F2 in E'.
   destruct ((TEN_MINUTES_US <? up_time d) || (TEN_MINUTES_US <? down_time d)) eqn:Elong.
   - pose proof (sub_set_relay up k d1 RELAY_OFF false false) as S.
     assert (NFF : ~ nofall up (outs (set_relay k d1 RELAY_OFF false false))) by (destruct O1 as [P _]; exact (set_relay_off_falls up k d1 false P)).
-    set (d2 := set_relay k d1 RELAY_OFF false false) in *.
-    clearbody d2.
+    set (d2 := set_relay k d1 RELAY_OFF false false) in *. clearbody d2.
     destruct (sub_log up _ _ S) as [n L].
     pose proof (sub_ut up _ _ S). pose proof (sub_dt up _ _ S). pose proof (sub_lt up _ _ S). pose proof (sub_now up _ _ S).
-    unfold ext. cbn [outs C10.Model.up_time C10.Model.down_time C10.Model.last_time C10.Model.last_comm C10.Model.now upd_times].
+    subst d'. unfold ext. cbn [outs C10.Model.up_time C10.Model.down_time C10.Model.last_time C10.Model.last_comm C10.Model.now upd_times].
     split; [exists (n ++ n1); rewrite L, L1, app_assoc; reflexivity|].
     split; [congruence|]. split; [congruence|]. split; [congruence|]. split; [congruence|]. split; [reflexivity|].
     intros NF. exfalso. exact (NFF NF).
-  - unfold ext. cbn [outs C10.Model.up_time C10.Model.down_time C10.Model.last_time C10.Model.last_comm C10.Model.now C10.Model.pos C10.Model.tilt start_time upd_times].
+  - subst d'. unfold ext. cbn [outs C10.Model.up_time C10.Model.down_time C10.Model.last_time C10.Model.last_comm C10.Model.now C10.Model.pos C10.Model.tilt start_time upd_times].
     split; [exists n1; exact L1|].
     split; [congruence|]. split; [congruence|]. split; [congruence|]. split; [congruence|]. split; [reflexivity|].
     intros NF. split.
@@ -272,89 +284,3 @@ Proof.
 Qed.
 
 End Callback.
-
-Section Callback2.
-Variable o : fpops.
-Hypothesis OK : fp_ok o.
-
-Lemma NT_transfer k up d d' :
-  NT k up d -> (pos d' = pos d /\ tilt d' = tilt d) \/ known (pos d') = false -> NT k up d'.
-Proof.
-  intros N [[P T]|U]; [|left; exact U]. unfold NT in *. rewrite P, T. exact N.
-Qed.
-
-(* what a sub-step hands on when the output stays energised *)
-Lemma sub_bundle k up d d' :
-  sub up d d' -> nofall up (outs d') -> only up d -> NT k up d ->
-  only up d' /\ NT k up d' /\ up_time d' = up_time d /\ down_time d' = down_time d /\ last_time d' = last_time d /\
-  last_comm d' = last_comm d /\ now d' = now d /\ detected d' = detected d /\ (start_time d <> 0 -> start_time d' = start_time d).
-Proof.
-  intros S NF O N.
-  split; [exact (sub_on up _ _ S NF O)|]. split; [exact (NT_transfer k up d d' N (sub_pos up _ _ S NF O))|].
-  split; [exact (sub_ut up _ _ S)|]. split; [exact (sub_dt up _ _ S)|]. split; [exact (sub_lt up _ _ S)|].
-  split; [exact (sub_lc up _ _ S)|]. split; [exact (sub_now up _ _ S)|]. split; [exact (sub_det up _ _ S)|].
-  exact (sub_start up _ _ S NF O).
-Qed.
-
-Lemma cb_head_frame k d :
-  let d' := cb_head k d in
-  outs d' = outs d /\ up_on d' = up_on d /\ down_on d' = down_on d /\ start_time d' = start_time d /\ detected d' = detected d /\
-  up_time d' = up_time d /\ down_time d' = down_time d /\ last_time d' = last_time d /\ last_comm d' = last_comm d /\ now d' = now d /\
-  clk d' = clk d /\ ((pos d' = pos d /\ tilt d' = tilt d) \/ known (pos d') = false).
-Proof.
-  cbv zeta. unfold cb_head.
-  destruct (autocal_enabled k d).
-  - destruct ((aot d =? 0) && (act d =? 0)); fld; repeat split; auto.
-  - destruct (negb (act d =? 0) || negb (aot d =? 0) || negb (ac_step d =? 0)); fld; repeat split; auto.
-Qed.
-
-Definition frozen_cb (k : kcfg) (d : dev) (im : bool) : bool :=
-  autocal_enabled k d && negb (detected d || im) && (u32 (counter k d - start_time d) <? POWER_DETECT_US).
-
-(* the accounting stage when exactly the output of direction `up` is energised *)
-Lemma cb_account_only up k d im t fo fc :
-  wfk k -> only up d -> NT k up d ->
-  let el := u32 (t - last_time d) in
-  0 <= carry up d -> carry up d + el < 4294967296 ->
-  let d' := fst (fst (cb_account o k d im t fo fc)) in
-  ext d d' /\
-  (nofall up (outs d') ->
-   only up d' /\ NT k up d' /\ carry up d' = carry up d + el /\ last_time d' = last_time d /\ last_comm d' = last_comm d /\
-   now d' = now d /\ (start_time d <> 0 -> start_time d' = start_time d)).
-Proof.
-  intros W O N. cbv zeta. intros Hc Hsum.
-  pose proof (u32_range (t - last_time d)) as Hel.
-  unfold cb_account. cbv zeta.
-  destruct O as [P Q]. pose proof (conj P Q) as O.
-  destruct up; unfold powered in P, Q; cbn [negb] in P, Q; unfold carry in *.
-  - (* up *)
-    rewrite P.
-    set (d3 := upd_times d (u32 (up_time d + u32 (t - last_time d))) 0 (last_time d) (last_comm d)).
-    assert (F3 : same_frame d (upd_times d (up_time d) (down_time d) (last_time d) (last_comm d)) ) by (unfold same_frame; fld; repeat split; reflexivity).
-    assert (U3 : up_time d3 = up_time d + u32 (t - last_time d)) by (unfold d3; fld; apply u32_small; lia).
-    assert (O3 : only true d3) by (unfold d3, only, powered; fld; auto).
-    assert (N3 : NT k true d3) by (unfold d3, NT in *; fld; exact N).
-    assert (E3 : outs d3 = outs d) by reflexivity.
-    assert (L3 : last_time d3 = last_time d /\ last_comm d3 = last_comm d /\ now d3 = now d /\ start_time d3 = start_time d) by (unfold d3; fld; auto).
-    clearbody d3.
-    set (d4 := if 0 <? up_time d3 then check_motor k d3 true im else d3).
-    assert (S4 : sub true d3 d4) by (unfold d4; destruct (0 <? up_time d3); [apply sub_check_motor|apply sub_refl]).
-    clearbody d4.
-    pose proof (sub_autocalibrate true k d4 im) as S5.
-    set (da := autocalibrate k d4 im) in *. set (d5 := fst da) in *.
-    set (fo' := if snd da then aot d5 else fo). clearbody fo'. clearbody da.
-    pose proof (sub_trans true _ _ _ S4 S5) as S35.
-    (* calibrate + move *)
-    set (d6 := calibrate_d o k d5 fo' (up_time d5) 100).
-    set (d7 := move_position_d o k d6 fo' true im).
-    assert (X35 : ext d d5) by (destruct (sub_log true _ _ S35) as [n L]; exists n; rewrite L, E3; reflexivity).
-    assert (X56 : forall N5 : NT k true d5, same_frame d5 d6 /\ NT k true d6 /\ stop_time d6 = stop_time d5)
-      by (intros N5; exact (calibrate_d_facts o k d5 fo' (up_time d5) true W N5)).
-    split.
-    { (* log only grows *)
-      admit. }
-    admit.
-  - admit.
-Admitted.
-
-End Callback2.
